@@ -449,6 +449,105 @@ func C03(c *core.Ctx) {
 		}
 	}
 	c.Floor("R3.4", "ShrinkLength call sites", nShrink, 2)
+	// ... and everything ShrinkLength writes lies inside the buffer it returns: for a
+	// return of buf[d:] every header write that can precede it goes to buf[d+…:]
+	if sh := c.Fn("R3.4", "std/encoding", "", "ShrinkLength"); sh != nil {
+		buf := ssa.Value(sh.Params[0])
+		var sum func(v ssa.Value, d int) []ssa.Value
+		sum = func(v ssa.Value, d int) []ssa.Value {
+			v = core.StripConv(v)
+			if v == nil {
+				return nil
+			}
+			if k, isC := core.ConstInt(v); isC && k == 0 {
+				return nil
+			}
+			if b, ok := v.(*ssa.BinOp); ok && b.Op == token.ADD && d < 4 {
+				return append(sum(b.X, d+1), sum(b.Y, d+1)...)
+			}
+			return []ssa.Value{v}
+		}
+		lowOf := func(v ssa.Value) ([]ssa.Value, bool) {
+			v = core.Strip(v)
+			if v == buf {
+				return nil, true
+			}
+			if sl, ok := v.(*ssa.Slice); ok && core.Strip(sl.X) == buf {
+				return sum(sl.Low, 0), true
+			}
+			return nil, false
+		}
+		type wr struct {
+			in  ssa.Instruction
+			low []ssa.Value
+		}
+		var writes []wr
+		core.Instrs(sh, func(in ssa.Instruction) {
+			ci, ok := in.(ssa.CallInstruction)
+			if !ok {
+				return
+			}
+			id, okID := core.Callee(ci.Common())
+			if !okID || !((id.Name == "EncodeInto" && id.Pkg == "std/encoding") || (id.Pkg == "builtin" && id.Name == "copy")) {
+				return
+			}
+			_, a := core.CallArgs(ci.Common())
+			if len(a) == 0 {
+				return
+			}
+			if low, isBuf := lowOf(a[0]); isBuf {
+				writes = append(writes, wr{in, low})
+			}
+		})
+		bad := ""
+		nPairs := 0
+		core.Instrs(sh, func(in ssa.Instruction) {
+			r, ok := in.(*ssa.Return)
+			if !ok || len(r.Results) != 1 {
+				return
+			}
+			// the returned start offset; a phi of alternatives is taken edge by edge
+			var starts [][]ssa.Value
+			if low, isBuf := lowOf(r.Results[0]); isBuf {
+				starts = append(starts, low)
+			} else if phi, isPhi := core.Strip(r.Results[0]).(*ssa.Phi); isPhi {
+				for _, e := range phi.Edges {
+					if low, isBuf := lowOf(e); isBuf {
+						starts = append(starts, low)
+					} else {
+						bad = "returns something that is not a tail of the buffer"
+					}
+				}
+			} else {
+				bad = "returns something that is not a tail of the buffer"
+				return
+			}
+			for _, w := range writes {
+				if !core.ReachableFrom(core.After(w.in), r) {
+					continue
+				}
+				nPairs++
+				for _, st := range starts {
+					// every addend of the start occurs among the addends of the write offset
+					left := append([]ssa.Value{}, w.low...)
+					for _, sv := range st {
+						found := false
+						for i, lv := range left {
+							if lv == sv || core.Same(lv, sv) {
+								left = append(left[:i], left[i+1:]...)
+								found = true
+								break
+							}
+						}
+						if !found && len(starts) == 1 {
+							bad = "a header write at " + p.Pos(w.in.Pos()) + " starts before the buffer that is returned"
+						}
+					}
+				}
+			}
+		})
+		c.Decide(bad == "" && nPairs >= 2, "R3.4", "shrink-writes-inside-result", p.Pos(sh.Pos()), fmt.Sprintf("%d (write, return) pairs: each header write starts at or after the start of the returned buffer", nPairs), "ShrinkLength: "+bad+": when the Length needs fewer bytes the shortened header is partly left outside the packet (the bytes sent start with a stale header)")
+	}
 
 	// ---- R3.5 chunked copy loops: a destination offset that is carried around the loop
 	// must advance relative to itself (off = off ± n), otherwise the third chunk lands
